@@ -1087,7 +1087,6 @@ func holdsInto(b *ssa.BasicBlock, ok func([]Fact) bool, depth int) bool {
 	return false
 }
 
-
 // RetVal is the value a return statement yields for result idx, looking
 // through the spill that go/ssa inserts when the function defers something
 // (store to the result cell, run defers, load, return). When several values
